@@ -500,7 +500,7 @@ def all_obligations():
 def select(prop, tier, only=None):
     out = [o for o in all_obligations() if prop in o.props and (tier == "thorough" or o.tier == "quick")]
     if only:
-        out = [o for o in out if only in o.id]
+        out = [o for o in out if any(x and x in o.id for x in only.split(","))]
     return out
 
 
